@@ -970,9 +970,9 @@ func outcome(x *rt.Exec) string {
 // accountingParts lists the C13 shards.
 func accountingParts(tier string) []string {
 	if tier == "thorough" {
-		return []string{"2-ops/rib-ack/rich", "2-ops/fib-ack/rich", "3-ops/rib-ack", "3-ops/fib-ack", "1-op/fib-ack/rich", "reused-id", "stop-start", "ack-while-receiving", "across-reset"}
+		return []string{"2-ops/rib-ack/rich", "2-ops/fib-ack/rich", "3-ops/rib-ack", "3-ops/fib-ack", "1-op/fib-ack/rich", "reused-id", "stop-start", "ack-while-receiving", "across-reset", "across-fault-and-reset"}
 	}
-	return []string{"2-ops/rib-ack", "2-ops/fib-ack", "1-op/fib-ack/rich", "reused-id", "stop-start", "ack-while-receiving", "across-reset"}
+	return []string{"2-ops/rib-ack", "2-ops/fib-ack", "1-op/fib-ack/rich", "reused-id", "stop-start", "ack-while-receiving", "across-reset", "across-fault-and-reset"}
 }
 
 // RunC13 decides C13 (one shard process per configuration).
@@ -1000,6 +1000,17 @@ func ChildC13(rep *report.Report, tier, part string) {
 	if part == "across-reset" {
 		res := mc.DFS(mc.SchedConfig{Name: part, Body: acrossResetBody(), Check: checkAcrossReset(), Outcome: outcome, Bound: 1, SwitchCost: 1, Deadline: dl})
 		merge(rep, "accounting/"+part, res, 1)
+		return
+	}
+	if part == "across-fault-and-reset" {
+		// the ledger across a broken session: the stream fails while requests are still buffered behind the one being
+		// written, the application resets the client (and hands over a request before / after it connects again):
+		// every operation of the broken session is pending or resulted when the failure is reported, and the new
+		// session carries and accounts for the new operations only (the C14 scenario, with the C13 oracles)
+		for _, fc := range []faultCase{{"send", 3, codes.Unavailable, "reset"}, {"send", 2, codes.Unavailable, "reset+queue-before-connect"}, {"recv", 3, codes.Unavailable, "reset+queue-before-connect"}} {
+			res := mc.DFS(mc.SchedConfig{Name: part + "/" + fc.String(), Body: faultBody(fc), Check: checkFault(fc), Outcome: outcome, Bound: 1, SwitchCost: 1, Deadline: dl})
+			merge(rep, "accounting/"+part+"/"+fc.String(), res, 1)
+		}
 		return
 	}
 	if part == "ack-while-receiving" {
@@ -1082,6 +1093,11 @@ func faultCases(thorough bool) []faultCase {
 	for _, side := range []string{"send", "recv"} {
 		out = append(out, faultCase{side, 1, codes.Unavailable, "reset+replace-stub"})
 	}
+	// after the fault and Reset the application hands over a request BEFORE it connects again: like on a client
+	// that was never connected, it waits in the send queue and is flushed by StartSending on the new stream
+	for _, side := range []string{"send", "recv"} {
+		out = append(out, faultCase{side, 1, codes.Unavailable, "reset+queue-before-connect"})
+	}
 	// the read side fails while the write side still accepts (and loses) messages: the receive error is the only
 	// report of the failure - also when it arrives before the application has called StartSending
 	for _, then := range []string{"close", "reset"} {
@@ -1147,7 +1163,7 @@ func faultBody(fc faultCase) func() {
 		case "close":
 			c.Close()
 			rt.Emit("closed", nil)
-		case "reset", "reset+replace-stub":
+		case "reset", "reset+replace-stub", "reset+queue-before-connect":
 			c.Reset()
 			if fc.then == "reset+replace-stub" {
 				if err := c.ReplaceStub(wire.New(&script{streams: 1})); err != nil {
@@ -1158,6 +1174,13 @@ func faultBody(fc faultCase) func() {
 			rt.Emit("reset-returned", nil)
 			f2 := snapshot(c, nil, false)
 			rt.Emit("after-reset", fmt.Sprintf("pending=%v results=%v send-errors=%d recv-errors=%d", f2.pending, f2.results, f2.sendErrs, f2.recvErrs))
+			second := []*spb.AFTOperation{}
+			if fc.then == "reset+queue-before-connect" {
+				o := ribx.Op(99, D, spb.AFTOperation_ADD, ribx.NHEntry(99, "9.9.9.8"))
+				o.ElectionId = &spb.Uint128{Low: 1}
+				c.Q(&spb.ModifyRequest{Operation: []*spb.AFTOperation{o}})
+				second = append(second, o)
+			}
 			if err := c.Connect(context.Background()); err != nil {
 				rt.Emit("reconnect-error", err.Error())
 				return
@@ -1166,8 +1189,9 @@ func faultBody(fc faultCase) func() {
 			o := ribx.Op(100, D, spb.AFTOperation_ADD, ribx.NHEntry(100, "9.9.9.9"))
 			o.ElectionId = &spb.Uint128{Low: 1}
 			c.Q(&spb.ModifyRequest{Operation: []*spb.AFTOperation{o}})
+			second = append(second, o)
 			err := c.AwaitConverged(context.Background())
-			f3 := snapshot(c, []*spb.AFTOperation{o}, false)
+			f3 := snapshot(c, second, false)
 			rt.Emit("second-exchange", fmt.Sprintf("await=%v pending=%v results=%v recv-errors=%d", err, f3.pending, f3.results, f3.recvErrs))
 			c.Close()
 			rt.Emit("closed", nil)
@@ -1237,15 +1261,33 @@ func checkFault(fc faultCase) func(x *rt.Exec) []mc.Fail {
 				bad("C14/done-not-signalled", "%s: the stream failed but Done() was not signalled", fc)
 			}
 		}
-		if fc.then == "reset" || fc.then == "reset+replace-stub" {
+		// C13 holds under faults too: every operation of the burst was handed to the client while it was sending, so
+		// each is pending or has a terminal result (whether or not its request reached the wire)
+		if ev["final"] != nil {
+			pend := map[string]bool{}
+			for _, p := range f.pending {
+				pend[p] = true
+			}
+			for id := uint64(1); id <= burst; id++ {
+				if !pend[fmt.Sprintf("op%d", id)] && f.terminals[id] == 0 {
+					bad("C13/operation-lost", "%s: operation %d was handed to the client but is neither pending nor resulted (pending %v, results %v)", fc, id, f.pending, f.results)
+					break
+				}
+			}
+		}
+		if strings.HasPrefix(fc.then, "reset") {
 			if s, _ := ev["after-reset"].(string); s != "pending=[] results=[] send-errors=0 recv-errors=0" {
 				bad("C14/stale-state-after-reset", "%s: after Reset the client holds %s", fc, s)
 			}
 			want := "params,election,ops[100]"
+			wantEnd := "await=<nil> pending=[] results=[100:RIB]"
+			if fc.then == "reset+queue-before-connect" {
+				want, wantEnd = "params,election,ops[99],ops[100]", "await=<nil> pending=[] results=[99:RIB 100:RIB]"
+			}
 			if got := strings.Join(secondStream, ","); got != want {
 				bad("C14/second-stream-carries-stale-messages", "%s: after Reset + Connect the new stream carried %s, want %s", fc, got, want)
 			}
-			if s, _ := ev["second-exchange"].(string); !strings.HasPrefix(s, "await=<nil> pending=[] results=[100:RIB]") {
+			if s, _ := ev["second-exchange"].(string); !strings.HasPrefix(s, wantEnd) {
 				bad("C14/second-exchange-not-clean", "%s: the exchange on the new stream ended with %s", fc, s)
 			}
 		}
